@@ -8,7 +8,7 @@ import (
 )
 
 var (
-	reTrailAtt = regexp.MustCompile(`((?:,? ![-a-zA-Z$._\\0-9]+ !\d+)+)( \{)?$`)
+	reTrailAtt = regexp.MustCompile(`((?:,? ![-a-zA-Z$._\\0-9]+ !\d+)+)( \{| #\d+)?$`) // `{` of a definition, `#N` of a global variable's attributes
 	reDeclAtt  = regexp.MustCompile(`^declare((?: ![-a-zA-Z$._\\0-9]+ !\d+)+) `)
 	reOneAtt   = regexp.MustCompile(`,? (![-a-zA-Z$._\\0-9]+ !\d+)`)
 )
